@@ -186,6 +186,25 @@ static bool resource_heavy(const S &f)
     }
 }
 
+// The string_view arguments of a case, re-seated on heap blocks of exactly their size (no unit behind the view, no
+// terminator): a formatter that reads a view as a NUL-terminated string runs into an ASan red zone.
+struct ExactViews {
+    vrt::Exact<char> a;
+    vrt::Exact<wchar_t> w;
+    vrt::Exact<char16_t> u16;
+    vrt::Exact<char32_t> u32;
+    vrt::Exact<char8_t> u8;
+    explicit ExactViews(Values &v)
+        : a(v.sv.data(), v.sv.size()), w(v.wsv.data(), v.wsv.size()), u16(v.sv16.data(), v.sv16.size()), u32(v.sv32.data(), v.sv32.size()), u8(v.sv8.data(), v.sv8.size())
+    {
+        v.sv = std::string_view(a.data(), a.size());
+        v.wsv = std::wstring_view(w.data(), w.size());
+        v.sv16 = std::u16string_view(u16.data(), u16.size());
+        v.sv32 = std::u32string_view(u32.data(), u32.size());
+        v.sv8 = std::u8string_view(u8.data(), u8.size());
+    }
+};
+
 static bool g_sinks_sampled = false;
 static void format_case(const S &fmt, int shape, const Values &v, bool bounded = true)
 {
@@ -259,6 +278,7 @@ static void body()
         gen::nth_string(i, alpha, L, fmt);
         Values v;
         random_values(r, v);
+        ExactViews exact_views(v);
         v.i = 65; v.c32 = 0x1F600;
         for (int shape : DIRECTED_SHAPES) format_case(fmt, shape, v);
         if (vrt::want_sample("grammar_exhaustive") && fmt.size() == L && fmt[0] == '{') vrt::sample("grammar_exhaustive", "format string \"" + vrt::json_escape(fmt) + "\" with 7 argument lists");
@@ -269,6 +289,7 @@ static void body()
         g_sinks_sampled = false;
         Values v;
         random_values(r, v);
+        ExactViews exact_views(v);
         int shape = random_shape(r);
         S fmt = random_literal(r);
         size_t nf = 1 + r.below(3);
@@ -308,6 +329,7 @@ static void body()
         static const char *const tmpl[] = {"{%s}", "{.%s}", "{&%s}", "{_*%s}", "{<%s}", "{0%s}", "{%sx}", "id={%s}!", "{.%sf}", "{&1.%s}", "{%s.%s}"};
         Values v;
         random_values(r, v);
+        ExactViews exact_views(v);
         for (const char *t : tmpl)
             for (const char *num : nums) {
                 S fmt = sfmt(t, num, num);
@@ -321,6 +343,7 @@ static void body()
     vrt::phase("libc_precision_limit", 1, [&](uint64_t, Rng &r) {
         Values v;
         random_values(r, v);
+        ExactViews exact_views(v);
         format_case("{.2147483647f}", EXTRA_BASE + 0, v, false);
         format_case("{.-2147483649}", EXTRA_BASE + 0, v, false);
     });
@@ -329,6 +352,7 @@ static void body()
     vrt::phase("null_format", 1, [&](uint64_t, Rng &r) {
         Values v;
         random_values(r, v);
+        ExactViews exact_views(v);
         for (int shape : {0, 1, 2, 5, EXTRA_BASE + 0})
             for (int m = 0; m < 4; ++m) {
                 Result res = run_format(shape, v, nullptr, m == 3 ? -1 : m);
@@ -353,6 +377,7 @@ static void vrt_fuzz_one(const uint8_t *d, size_t n)
     Rng r(0x5eed0000u + d[1]);
     Values v;
     random_values(r, v);
+    ExactViews exact_views(v);
     S fmt(reinterpret_cast<const char *>(d + 2), n - 2);
     for (auto &c : fmt) if (c == '\0') c = '0';
     format_case(fmt, shape, v);
